@@ -7,7 +7,8 @@ import json, os, re, shutil, subprocess, sys, time
 pid = sys.argv[1]
 src = sys.argv[2] if len(sys.argv) > 2 else "/tmp/seed/%s/_seed" % pid
 root = os.path.dirname(os.path.dirname(os.path.abspath(__file__)))
-dst = os.path.join(root, "seeded", pid)
+name = os.environ.get("SEED_NAME", pid)          # e.g. C01r2 for a second independent change against the same property
+dst = os.path.join(root, "seeded", name)
 os.makedirs(dst, exist_ok=True)
 for f in ("patch.diff", "demo.py", "notes.md"):
     if os.path.exists(os.path.join(src, f)):
@@ -32,9 +33,10 @@ meta = {
         "baseline_tests_still_passing": "%s/%s" % (base.group(1), base.group(2)) if base else None,
         "full_suite_from_tests_dir": full.group(1).strip() if full else None,
     },
+    "name": name,
     "what_was_run": ["selftest/eval_seed.sh seeded/%s  (scratch copy of /repo under /tmp, removed afterwards): demo.py on the unchanged copy, "
                      "patch -p1 < patch.diff, demo.py on the changed copy, selftest/baseline.py, selftest/fulltests.sh, then "
-                     "VERIF_REPO=<copy> ./check <Cnn> quick for every registered check" % pid],
+                     "VERIF_REPO=<copy> ./check <Cnn> quick for every registered check" % name],
     "checks": checks,
     "caught_by": sorted(k for k, v in checks.items() if v["outcome"] == "KILLED"),
     "target_check_catches_it": checks.get(pid, {}).get("outcome") == "KILLED",
